@@ -159,7 +159,7 @@ def r1_ssa_lowering(rule, root=None):
     else:
         rule.ok("choice_count bumped for %s" % sorted(got))
     inc = [s for s in bumps[0]["then"]["stmts"] if "choice_count" in A.unparse(s)]
-    if A.unparse(inc[0]).replace(" ", "") != "(choice_count+=1);":
+    if A.ftxt(inc[0]) != "(choice_count+=1);":
         rule.bad("choice_count|step", "choice_count increment is `%s`" % A.unparse(inc[0]), A.where(fn, bumps[0]))
 
 
@@ -225,7 +225,7 @@ def r6_parent_counting(rule, root=None):
     """SsaTape::new emits a node only after all of its parents: pass 1 counts one parent per child edge,
     pass 2 removes one per child edge when the parent is emitted, emission is gated on the count being zero"""
     fn = A.find_fn(SSA, "new", self_ty="SsaTape", root=root)
-    t = A.unparse(fn["body"]).replace(" ", "")
+    t = A.ftxt(fn["body"])
     need = [
         ("pass 1 counts every child edge once", "forchildinop.iter_children(){(*parent_count.entry(child).or_default()+=1);todo.push(child);}"),
         ("pass 1 visits each node once", "if!seen.insert(node){continue;}"),
@@ -261,13 +261,13 @@ def r5b_lru(rule, root=None):
     }
     for name, w in want.items():
         fn = A.find_fn(LRU, name, self_ty="Lru", root=root)
-        got = A.unparse(fn["body"]).replace(" ", "")
+        got = A.ftxt(fn["body"])
         if got == w:
             rule.ok("Lru::%s has its summarised link updates" % name, file=LRU, line=fn["ln"])
         else:
             rule.bad("lru|%s" % name, "Lru::%s changed: the doubly-linked recency list must %s" % (name, {"remove": "bridge prev.next and next.prev over node i", "insert_before": "link i between `next` and its old predecessor", "poke": "make i the head (moving it unless it already is the oldest, which only rotates)", "pop": "return the oldest (head.prev) and make it the head"}[name]), A.where(fn))
     fn = A.find_fn(LRU, "new", self_ty="Lru", root=root)
-    t = A.unparse(fn["body"]).replace(" ", "")
+    t = A.ftxt(fn["body"])
     if "out.data[i].next=(((i+1)%N)asu8);out.data[i].prev=(i.checked_sub(1).unwrap_or((N-1))asu8);" in t and "head:0" in t:
         rule.ok("Lru::new links all N nodes into one ring")
     else:
